@@ -178,6 +178,31 @@ func H_C18_executor() {
 	}
 }
 
+// H_C18_executor2: two workers, two tasks that are due at once, Shutdown with / without IgnorePendingTimeouts: every
+// task runs exactly once and Shutdown returns (a worker left parked in Poll ends in the deadlock detector).
+//
+//verif:h prop=C18 preempt=1/2 p.maxfires=1/2 cover=ran runs=30000000 timeout=280/900 steps=400000
+func H_C18_executor2() {
+	ex := NewExecutor(2)
+	var ran [2]atomic.Int32
+	ignore := verifrt.Choose("ignoreTimeouts", 2) == 1
+	now := time.Now()
+	for k := 0; k < 2; k++ {
+		k := k
+		ex.ExecuteAt(func() { ran[k].Add(1) }, now)
+	}
+	verifrt.MustFinish()
+	if ignore {
+		ex.Shutdown(IgnorePendingTimeouts)
+	} else {
+		ex.Shutdown()
+	}
+	for k := 0; k < 2; k++ {
+		verifrt.Assert(ran[k].Load() == 1, "with two workers a task did not run exactly once although Shutdown (without the cancel flag) returned")
+	}
+	verifrt.Cover("ran")
+}
+
 // H_C18_taskexecutor: at most one pending task per identifier, re-scheduling replaces the pending task (also
 // while the callback of the previous one is running), Cancel(id) is true exactly when it prevented a run.
 //
